@@ -84,6 +84,14 @@ class FakeFlags:
             self.broken = broken
 
 
+class _FakeEnd:
+    def __init__(self, log, ev):
+        self.log, self.ev = log, ev
+
+    def close(self):
+        self.log.add(self.ev)
+
+
 class FakeCallQueue:
     """Bounded queue that never blocks: `full()` from a free-slot counter."""
 
@@ -94,6 +102,7 @@ class FakeCallQueue:
         self.full_times = full_times  # put_nowait raises Full this many times first
         self._maxsize = free_slots
         self.closed = False
+        self._reader = _FakeEnd(log, "cq-reader-close")
 
     def full(self):
         return self.free <= 0
@@ -198,3 +207,14 @@ class FakeCtx:
         self.created.append(p)
         self.log.add("process", p.pid)
         return p
+
+
+def _mk_partial(has_kw, has_attr):
+    p = _functools.partial(kwfn, 1, 2, **({"a": 3, "b": 4} if has_kw else {}))
+    if has_attr:
+        p.label = "tagged"          # partial objects accept instance attributes (functools.update_wrapper sets some)
+        p.__doc__ = "documented"
+    return p
+
+
+PARTIALS = {(k, a): _mk_partial(k, a) for k in (False, True) for a in (False, True)}
